@@ -43,7 +43,8 @@ LEVEL = "exploration"
 ENGINE = "sansio"
 BUDGET = {"quick": (500, 18), "thorough": (30000, 220)}
 WORKERS = {"quick": 4, "thorough": 16}
-REQUIRED = ["safety", "answer", "accept", "strip", "total", "path.regular-abs", "path.connect", "path.reverse", "path.transparent", "path.socks5", "path.upstream", "validator.single", "validator.any", "validator.htpasswd", "bcrypt.user_presented", "bcrypt.long_password"]
+REQUIRED = ["safety", "answer", "accept", "strip", "total", "path.regular-abs", "path.connect", "path.reverse", "path.transparent", "path.socks5", "path.upstream", "validator.single", "validator.any", "validator.htpasswd", "bcrypt.user_presented", "bcrypt.long_password",
+            "option.unauthenticated_chunked_body_reaches_stream_threshold", "option.oversized_body", "safety.no_upstream_connection"]
 TECHNIQUE = "runtime monitoring: sans-io conversations with the real ProxyAuth addon, reference Basic parser/validators, tag + credential search on the wire"
 RULE = (
     "case = (validator kind, entry path, conversation of 1-6 items each with a credential presentation kind, segmentation, schedule); "
@@ -54,6 +55,7 @@ ASSUMPTIONS = [
     "single-user specs have no ':' in the password (the option parser rejects them at configure time; htpasswd and `any` cover ':' passwords)",
     "strict-invalid presentations that a tolerant reader could still decode to an accepted pair may be accepted or refused (DESIGN 3.7)",
     "requests inside an established tunnel / SOCKS session carry no proxy credentials of their own; tunnelled traffic is plain HTTP to port 80/8080",
+    "options stream_large_bodies / body_size_limit / store_streamed_bodies vary; for an item whose body reaches a threshold (413, or the layer's abort for response+streaming) and for the items after it only the safety and strip clauses are decided",
     "HTTP/1 clients; origin answers are keep-alive with Content-Length; no HEAD requests (the 407/401 page carries a body -- framing is C01/C12's subject)",
     "transparent mode: the first TCP segment carries the complete first request (protocol detection on short first segments is C19's subject)",
 ]
@@ -218,23 +220,38 @@ def presentation(r, kind, validator, pairs, fresh=False):
 
 def http_item(r, k, form, host, port, pres, proxy_hdr):
     tag = "t%d-%06x" % (k, r.getrandbits(24))
-    method = r.choice(["GET", "GET", "POST", "OPTIONS", "PUT"])
-    body = b""
+    method = r.choice(["GET", "GET", "POST", "POST", "OPTIONS", "PUT"])
+    body = wire_body = b""
+    framing = "none"
     lines = []
     au = host if port == 80 else f"{host}:{port}"
     target = f"http://{au}/{tag}" if form == "absolute" else f"/{tag}"
     lines.append(f"Host: {au}")
     if method in ("POST", "PUT"):
-        body = ("b:" + tag).encode()
-        lines.append(f"Content-Length: {len(body)}")
+        # bodies from 11 bytes to ~3 kB so that small stream_large_bodies / body_size_limit thresholds are crossed,
+        # with Content-Length (size known up front) or chunked (size only known while buffering) framing
+        body = ("b:" + tag).encode() + b"x" * r.choice([0, 0, 30, 120, 300, 1500, 3000])
+        framing = r.choice(["cl", "chunked", "chunked"])
+        if framing == "cl":
+            lines.append(f"Content-Length: {len(body)}")
+            wire_body = body
+        else:
+            lines.append("Transfer-Encoding: chunked")
+            pos = 0
+            out = bytearray()
+            while pos < len(body):
+                n = r.randint(1, r.choice([4, 16, 100, 700]))
+                out += b"%x\r\n" % len(body[pos : pos + n]) + body[pos : pos + n] + b"\r\n"
+                pos += n
+            wire_body = bytes(out) + b"0\r\n\r\n"
     if pres is not None and pres["value"] is not None:
         name = proxy_hdr
         if pres["other_header"]:
             name = "Authorization" if proxy_hdr == "Proxy-Authorization" else "Proxy-Authorization"
         name = r.choice([name, name, name.lower(), name.upper()])
         lines.insert(r.randint(0, len(lines)), f"{name}: {pres['value']}")
-    raw = f"{method} {target} HTTP/1.1\r\n".encode() + "".join(l + "\r\n" for l in lines).encode("utf-8") + b"\r\n" + body
-    return {"what": "req", "tag": tag.encode(), "method": method, "raw": raw, "pres": pres}
+    raw = f"{method} {target} HTTP/1.1\r\n".encode() + "".join(l + "\r\n" for l in lines).encode("utf-8") + b"\r\n" + wire_body
+    return {"what": "req", "tag": tag.encode(), "method": method, "raw": raw, "pres": pres, "body_len": len(body), "framing": framing}
 
 
 def classify(item, validator_kind, path):
@@ -255,7 +272,15 @@ def run_case(ctx, tctx, chain):
     ctx.count("path." + {"regular-connect": "connect", "upstream-connect": "connect", "upstream-abs": "upstream"}.get(path, path))
     if path.startswith("upstream"):
         ctx.count("path.upstream")
-    tctx.options.update(proxyauth=optval, connection_strategy=r.choice(["eager", "lazy"]))
+    stream_thr = r.choice([None, None, 10, 50, 1024])
+    size_limit = r.choice([None] * 6 + [64, 200, 1024])
+    store_streamed = r.random() < 0.3
+    tctx.options.update(
+        proxyauth=optval, connection_strategy=r.choice(["eager", "lazy"]),
+        stream_large_bodies=None if stream_thr is None else {10: "10", 50: "50", 1024: "1k"}[stream_thr],
+        body_size_limit=None if size_limit is None else {64: "64", 200: "200", 1024: "1k"}[size_limit],
+        store_streamed_bodies=store_streamed,
+    )
     proxy_hdr = "Proxy-Authorization" if fam in ("regular", "upstream") else "Authorization"
 
     def pres_kind(p_valid):
@@ -424,7 +449,7 @@ def run_case(ctx, tctx, chain):
             if t:
                 up_msgs[t.group(0)] = m
             pos = npos
-    witness = {"path": path, "mode": mode, "proxyauth": optval if validator.kind != "htpasswd" else {"htpasswd_pairs": pairs}, "segmentation": segmode,
+    witness = {"path": path, "mode": mode, "options": {"stream_large_bodies": stream_thr, "body_size_limit": size_limit, "store_streamed_bodies": store_streamed}, "proxyauth": optval if validator.kind != "htpasswd" else {"htpasswd_pairs": pairs}, "segmentation": segmode,
                "items": [(it["what"], it.get("pres") and it["pres"]["kind"], it["expect"], it["raw"][:200]) for it in items],
                "down": down[:1200], "upstream": up_all[:800], "hooks": d.hook_names()[:40]}
 
@@ -461,8 +486,26 @@ def run_case(ctx, tctx, chain):
     auth_status = 407 if fam in ("regular", "upstream") else 401
     auth_field = "proxy-authenticate" if auth_status == 407 else "www-authenticate"
     n_acc = n_ref = 0
+    # Option interplay (not C20's subject, only its safety half is): a body at/over body_size_limit is answered 413 and the
+    # connection is closed; an unauthenticated request whose body reaches stream_large_bodies makes the layer abort
+    # ("Can't set a response and enable streaming") -- nothing goes upstream, nothing more is answered on that connection.
+    # For such items, and for everything after them, only safety / strip are decided.
+    dead = False
+    if fam in ("regular", "upstream") and all(x["expect"] == "refuse" for x in items):
+        ctx.count("safety.no_upstream_connection")
+        if d.servers:
+            ctx.violation("upstream-connection-opened-for-unauthenticated-client", {**witness, "opened": [repr(c.address) for c in d.servers]}, None)
     for i, it in enumerate(items):
         exp = it["expect"]
+        bl = it.get("body_len", 0)
+        oversized = size_limit is not None and bl >= size_limit
+        streamed = stream_thr is not None and bl >= stream_thr
+        relaxed = dead or oversized or (streamed and exp != "accept")
+        if oversized or (streamed and exp != "accept"):
+            dead = True
+            ctx.count("option.oversized_body" if oversized else "option.unauthenticated_body_reaches_stream_threshold")
+            if streamed and not oversized and it.get("framing") == "chunked":
+                ctx.count("option.unauthenticated_chunked_body_reaches_stream_threshold")
         mech = classify(it, validator.kind, path)
         if it["what"] == "socks":
             got = answers.get(0, ("socks", b""))[1]
@@ -494,7 +537,9 @@ def run_case(ctx, tctx, chain):
                 ctx.violation("unauthenticated-request-forwarded", {**witness, "item": i, "tag": tag}, mech)
             if it["what"] == "connect" and isinstance(ans, dict) and 200 <= ans["status"] < 300:
                 ctx.violation("unauthenticated-connect-established", {**witness, "item": i}, mech)
-            if ans is not None:
+            if relaxed:
+                pass
+            elif ans is not None:
                 ctx.count("answer")
                 if not is_auth_answer:
                     ctx.violation("refused-without-authentication-required-answer", {**witness, "item": i, "answer_head": ans.get("raw_head") if isinstance(ans, dict) else ans}, mech)
@@ -505,7 +550,9 @@ def run_case(ctx, tctx, chain):
         elif exp == "accept":
             n_acc += 1
             ctx.count("accept")
-            if is_other_auth and not forwarded:
+            if relaxed:
+                pass
+            elif is_other_auth and not forwarded:
                 ctx.violation("valid-credentials-refused", {**witness, "item": i, "presented": it["pres"] and it["pres"]["kind"], "pair": it["pres"] and it["pres"]["pair"]}, mech)
             elif it["what"] == "req":
                 healthy = all(isinstance(answers.get(j), dict) for j, x in enumerate(items[:i]) if x["what"] != "socks")
@@ -533,7 +580,7 @@ def run_case(ctx, tctx, chain):
 
     kinds = sorted({(it.get("pres") or {}).get("kind") or "none" for it in items})
     special = any(it.get("pres") and it["pres"].get("pair") and (":" in it["pres"]["pair"][1] or any(ord(c) > 127 for c in "".join(it["pres"]["pair"]))) for it in items)
-    sig = (path, validator.kind, tuple(kinds), min(n_acc, 3), min(n_ref, 3))
+    sig = (path, validator.kind, tuple(kinds), min(n_acc, 3), min(n_ref, 3), stream_thr, size_limit, tuple(sorted({x.get("framing", "none") for x in items})))
     sample = {"path": path, "proxyauth": optval if validator.kind != "htpasswd" else "htpasswd(5 users)", "items": [(it["what"], (it.get("pres") or {}).get("kind"), it["expect"]) for it in items], "client_got": down[:160]}
     return sig, (n_acc > 0 and n_ref > 0) or special, sample
 
@@ -542,7 +589,7 @@ def run(ctx):
     tctx, addons = sansio.addon_context(ProxyAuth)
     pa = addons[2]
     chain = [addons[1], pa]
-    keep = {k: getattr(tctx.options, k) for k in ("proxyauth", "connection_strategy")}
+    keep = {k: getattr(tctx.options, k) for k in ("proxyauth", "connection_strategy", "stream_large_bodies", "body_size_limit", "store_streamed_bodies")}
     try:
         for i in ctx.cases():
             res = ctx.guard(run_case, ctx, tctx, chain, what="c20 case")
